@@ -29,6 +29,18 @@ struct Inputs {
       v2.push_back({(T)1, s});
       v2.push_back({-s, (T)-1});
     }
+    // lengths next to one: 1 +- 2^-j for every j down to the last place, along an axis and along generic directions (a
+    // direction is where "already a unit vector" shortcuts would sit)
+    for (int j = 1; j <= p + 1; j++)
+      for (int sg : {1, -1}) {
+        const T f = (T)1 + sg * std::ldexp((T)1, -j);
+        v3.push_back({f, (T)0, (T)0});
+        v3.push_back({(T)0, (T)0, -f});
+        v3.push_back({(T)0.6L * f, (T)-0.8L * f, (T)0});
+        v3.push_back({(T)(2.0L / 3) * f, (T)(2.0L / 3) * f, (T)(-1.0L / 3) * f});
+        v2.push_back({(T)0, f});
+        v2.push_back({(T)-0.8L * f, (T)0.6L * f});
+      }
     // every 8th binade (quick: every 32nd) for which the squared length neither overflows nor underflows:
     // components up to 6*sqrt(3) ~ 2^3.4 at the top, down to 2^-(p+3) relative at the bottom
     const int hi = std::numeric_limits<T>::max_exponent / 2 - 5, lo = std::numeric_limits<T>::min_exponent / 2 + 3;
@@ -103,6 +115,32 @@ void all(int part, int nparts) {
         Direction<T> q3;
         q3.Set(Vector<T>(s[0], s[1], s[2]));
         same("Set(Vector)", q3);
+        // histories on one object: set again from its own stored value (the argument aliases the object), from its own
+        // components, self-assignment, and set over a previous different direction
+        Direction<T> q4(s[1], s[2], s[0]);
+        q4.Set(s[0], s[1], s[2]);
+        same("Set(x,y,z) over another direction", q4);
+        // each further step is judged against the object's value before the step (its input)
+        auto again = [&](const char* path, auto&& op) {
+          T before[3], after[3];
+          vf::comps(q4, before);
+          op();
+          vf::comps(q4, after);
+          vf::stat("path_comparisons");
+          c10::check_direction<T>(path, after, before, 3);
+          for (int i = 0; i < 3; i++)
+            if (std::fabs((double)(after[i] - before[i])) > 2 * (double)std::numeric_limits<T>::epsilon()) {
+              vf::viol(std::string("direction|renormalising-a-direction-changes-it|") + path + "|" + vf::TName<T>::value,
+                       "{\"direction_before\":[" + vf::jstr(vf::hex(before[0])) + "," + vf::jstr(vf::hex(before[1])) + "," + vf::jstr(vf::hex(before[2])) + "],\"after\":[" +
+                           vf::jstr(vf::hex(after[0])) + "," + vf::jstr(vf::hex(after[1])) + "," + vf::jstr(vf::hex(after[2])) + "]}");
+              break;
+            }
+        };
+        again("Set(own Value())", [&] { q4.Set(q4.Value()); });
+        again("Set(own Value().x_y_z())", [&] { q4.Set(q4.Value().x_y_z()); });
+        again("Set(own x, y, z)", [&] { q4.Set(q4.x(), q4.y(), q4.z()); });
+        again("self-assignment", [&] { q4 = *&q4; });
+        again("copy of itself assigned", [&] { q4 = Direction<T>(q4); });
       }
     }
     // x3 and x0.7: unchanged to rounding (2 ulp of 1 per component)
@@ -191,6 +229,29 @@ void all(int part, int nparts) {
         PlanarDirection<T> q3;
         q3.Set(PlanarVector<T>(s[0], s[1]));
         same("PlanarDirection.Set(PlanarVector)", q3);
+        PlanarDirection<T> q4(s[1], -s[0]);
+        q4.Set(s[0], s[1]);
+        same("PlanarDirection.Set(x,y) over another direction", q4);
+        auto again = [&](const char* path, auto&& op) {
+          T before[2], after[2];
+          vf::comps(q4, before);
+          op();
+          vf::comps(q4, after);
+          vf::stat("path_comparisons");
+          c10::check_direction<T>(path, after, before, 2);
+          for (int i = 0; i < 2; i++)
+            if (std::fabs((double)(after[i] - before[i])) > 2 * (double)std::numeric_limits<T>::epsilon()) {
+              vf::viol(std::string("direction|renormalising-a-direction-changes-it|") + path + "|" + vf::TName<T>::value,
+                       "{\"direction_before\":[" + vf::jstr(vf::hex(before[0])) + "," + vf::jstr(vf::hex(before[1])) + "],\"after\":[" + vf::jstr(vf::hex(after[0])) + "," +
+                           vf::jstr(vf::hex(after[1])) + "]}");
+              break;
+            }
+        };
+        again("PlanarDirection.Set(own Value())", [&] { q4.Set(q4.Value()); });
+        again("PlanarDirection.Set(own Value().x_y())", [&] { q4.Set(q4.Value().x_y()); });
+        again("PlanarDirection.Set(own x, y)", [&] { q4.Set(q4.x(), q4.y()); });
+        again("PlanarDirection self-assignment", [&] { q4 = *&q4; });
+        again("PlanarDirection copy of itself assigned", [&] { q4 = PlanarDirection<T>(q4); });
       }
     }
   }
